@@ -257,7 +257,9 @@ def oracle_case(tr):
                 for k in asked:
                     cache_shadow[k] = got[k]
                     stale.discard(k)
-        elif name == "complete":
+        elif name in ("complete", "completeexist"):
+            if name == "completeexist":
+                a = ["0"]
             if inflight:
                 inflight = False
                 eff = (a[0] == "1") and not closed
